@@ -287,6 +287,10 @@ def pair_variants():
             ("text_wrap", {"text_wrap": True}, {"text_wrap": False})]
     for b in ("bold", "italic", "underline", "strikethrough"):
         out.append((b, {b: False}, {b: True}))
+    # two attributes differ, but written one after the other their values spell the same text ('1.0'+'6251.0' == '1.0625'+'1.0', '1'+'23' == '12'+'3')
+    out += [("right_indent and text_inset (values spelled alike when concatenated)", {"right_indent": 1.0, "text_inset": 6251.0}, {"right_indent": 1.0625, "text_inset": 1.0}),
+            ("left_indent and right_indent (values spelled alike when concatenated)", {"left_indent": 1.0, "right_indent": 6251.0}, {"left_indent": 1.0625, "right_indent": 1.0}),
+            ("bg_color channels (values spelled alike when concatenated)", {"bg_color": RGB(1, 23, 4)}, {"bg_color": RGB(12, 3, 4)})]
     return out
 
 
